@@ -22,6 +22,10 @@ def run(chk: Check) -> None:
     from .common import waiting_future_key
     WFK = waiting_future_key(chk.prog)
     prog = chk.prog
+    # "if an awaited item fails or is killed the work chain ends EXCEPTED with that error": the error of a CANCELLED item (a child killed through its future) is a
+    # concurrent.futures.CancelledError -- an Exception; the stepping code lets nothing of that kind through ahead of its catch-all (shared with C03)
+    from .c03 import reraised_ahead_of_catch_all
+    reraised_ahead_of_catch_all(chk, 'ESC-awaited-failure')
     # 1. registration: a step that registered awaitables is followed only through WAITING
     ds = prog.func('workchains.WorkChain._do_step')
     cfg = cfg_of(ds)
